@@ -814,6 +814,9 @@ def run(tier, only_adapter=None, only_key=None, chk=None):
     os.makedirs(gen)
     try:
         return _run(chk, thorough, gen, only_adapter, only_key)
+    except BaseException:
+        shutil.rmtree(chk.scratch, ignore_errors=True)        # finish() removes it on the normal path
+        raise
     finally:
         shutil.rmtree(gen, ignore_errors=True)
 
